@@ -7,6 +7,11 @@ digests are taken from the same qualnames in the current tree.  mode "deco": onl
 the parameter list are pinned -- used for kernels whose body is regenerated into coq/Gen by a translator; mode "full": the whole
 function (docstring and comments excluded) -- used for code that is hand-modelled and tied by the correspondence run only.
 """
+import os
+import sys
+if os.path.realpath(sys.executable) != os.path.realpath("/venv/bin/python"):
+    # digests are of ast.dump output, which differs between Python versions (f-string nodes): use the interpreter the checks run under
+    os.execv("/venv/bin/python", ["/venv/bin/python"] + sys.argv)
 import ast
 import glob
 import json
@@ -35,7 +40,140 @@ def functions(src):
     return out
 
 
+SKIP_DIRS = ("sigpyproc/viz/", "sigpyproc/apps/", "sigpyproc/simulation/")
+
+
+def index_repo():
+    """all functions / classes / module constants of the library at HEAD: (file, qual) -> node, and name -> [(file, qual, kind)]"""
+    files = subprocess.run(["git", "-C", "/repo", "ls-tree", "-r", "--name-only", "HEAD", "sigpyproc"], capture_output=True, text=True).stdout.split()
+    nodes, by_name, srcs = {}, {}, {}
+    for f in files:
+        if not f.endswith(".py") or f.startswith(SKIP_DIRS):
+            continue
+        src = subprocess.run(["git", "-C", "/repo", "show", f"HEAD:{f}"], capture_output=True, text=True).stdout
+        srcs[f] = src
+        tree = ast.parse(src)
+        def walk(node, prefix):
+            for ch in ast.iter_child_nodes(node):
+                if isinstance(ch, (ast.FunctionDef, ast.AsyncFunctionDef)):
+                    nodes[(f, prefix + ch.name)] = ch
+                    by_name.setdefault(ch.name, []).append((f, prefix + ch.name, "func"))
+                    walk(ch, prefix + ch.name + ".")
+                elif isinstance(ch, ast.ClassDef):
+                    nodes[(f, prefix + ch.name)] = ch
+                    by_name.setdefault(ch.name, []).append((f, prefix + ch.name, "class"))
+                    walk(ch, prefix + ch.name + ".")
+        walk(tree, "")
+        for b in tree.body:
+            tg = b.targets if isinstance(b, ast.Assign) else [b.target] if isinstance(b, ast.AnnAssign) else []
+            for t in tg:
+                if isinstance(t, ast.Name) and not t.id.startswith("__") and t.id not in ("logger",):
+                    nodes[(f, "=" + t.id)] = b
+                    by_name.setdefault(t.id, []).append((f, t.id, "const"))
+    return nodes, by_name, srcs
+
+
+RECEIVER_CLASS = {"header": ["Header"], "hdr": ["Header"], "hdr_in": ["Header"], "out_hdr": ["Header"], "new_hdr": ["Header"], "sub_hdr": ["SubintHdr", "Header"],
+                  "pri_hdr": ["PrimaryHdr"], "bitsinfo": ["BitsInfo"], "sinfo": ["StreamInfo"], "stream_info": ["StreamInfo"], "_file": ["FileReader"],
+                  "out_file": ["FileWriter"], "chan_stats": ["ChannelStats"], "_fitsfile": ["PFITSFile"], "fitsfile": ["PFITSFile"], "rfimask": ["RFIMask"],
+                  "block": ["FilterbankBlock", "BaseBlock"], "tim": ["TimeSeries"], "fil": ["FilReader", "Filterbank"], "freqs": ["FrequencyChannels"]}
+
+
+def class_family(cls_file, cls_name, nodes, by_name):
+    """the class and its bases (by name, across files)"""
+    fam, todo = [], [(cls_file, cls_name)]
+    while todo:
+        f, c = todo.pop()
+        if (f, c) in fam or (f, c) not in nodes or not isinstance(nodes[(f, c)], ast.ClassDef):
+            continue
+        fam.append((f, c))
+        for b in nodes[(f, c)].bases:
+            bn = b.id if isinstance(b, ast.Name) else b.attr if isinstance(b, ast.Attribute) else None
+            for (bf, bq, kind) in by_name.get(bn, []):
+                if kind == "class":
+                    todo.append((bf, bq))
+        # subclasses too: a method called on self may be the override of a derived class (Filterbank.read_plan -> FilReader.read_plan)
+        for (of, oq), onode in nodes.items():
+            if isinstance(onode, ast.ClassDef) and any((b.id if isinstance(b, ast.Name) else getattr(b, "attr", None)) == c.rsplit(".", 1)[-1] for b in onode.bases):
+                todo.append((of, oq))
+    return fam
+
+
+def referenced(fnode, ffile, fqual, nodes, by_name):
+    """(name, candidate definitions) read or called by the function: self.X -> the class family; recv.X with a known receiver name ->
+    that class family; module.X / bare X -> by name (same file first); any other recv.X only when the name is rare in the library"""
+    out = {}
+    def add(name, cands):
+        if cands:
+            out.setdefault(name, [])
+            for c in cands:
+                if c not in out[name]:
+                    out[name].append(c)
+    own = fqual.rsplit(".", 1)[0] if "." in fqual else None
+    for n in ast.walk(fnode):
+        # dynamic attribute access on self (getattr(self, name) / vars(type(self))): every method and property of the class family
+        if (isinstance(n, ast.Call) and isinstance(n.func, ast.Name) and n.func.id in ("getattr", "vars") and own and n.args
+                and (ast.unparse(n.args[0]) in ("self", "type(self)"))):
+            for (f, q) in class_family(ffile, own, nodes, by_name):
+                for (kf, kq), knode in nodes.items():
+                    if kf == f and kq.startswith(q + ".") and kq.count(".") == q.count(".") + 1 and isinstance(knode, ast.FunctionDef):
+                        add(kq.rsplit(".", 1)[1], [(kf, kq, "func")])
+        if isinstance(n, ast.Attribute):
+            v = n.value
+            recv = v.id if isinstance(v, ast.Name) else v.attr if isinstance(v, ast.Attribute) else None
+            cands = by_name.get(n.attr, [])
+            if recv == "self" and own:
+                fam = class_family(ffile, own, nodes, by_name)
+                add(n.attr, [c for c in cands if c[2] == "func" and any(c[0] == f and c[1] == q + "." + n.attr for f, q in fam)])
+            elif recv in RECEIVER_CLASS:
+                fams = [fq for cn in RECEIVER_CLASS[recv] for (cf, cq, kind) in by_name.get(cn, []) if kind == "class" for fq in class_family(cf, cq, nodes, by_name)]
+                add(n.attr, [c for c in cands if c[2] == "func" and any(c[0] == f and c[1] == q + "." + n.attr for f, q in fams)])
+            else:
+                top = [c for c in cands if "." not in c[1]]            # module.X: top-level functions / classes / constants
+                add(n.attr, top if recv in MODULE_ALIASES else [])
+                if len(cands) <= 2:
+                    add(n.attr, cands)
+        elif isinstance(n, ast.Name):
+            cands = [c for c in by_name.get(n.id, []) if "." not in c[1]]
+            same = [c for c in cands if c[0] == ffile]
+            add(n.id, same or (cands if len(cands) <= 2 else []))
+    return out
+
+
+MODULE_ALIASES = {"kernels", "stats", "utils", "params", "sigproc", "bits", "fileio", "rfi", "filters", "pfits", "np_utils", "custom_types"}
+
+
+def helpers_of(roots, nodes, by_name, depth=3):
+    """what the root functions call / read, to the given depth: functions, methods, properties, classes (their statement without
+    methods, plus __init__ / __attrs_post_init__) and module constants of the library"""
+    seen = set(roots)
+    frontier = list(roots)
+    out = []
+    for _ in range(depth):
+        nxt = []
+        for (f, q) in frontier:
+            node = nodes.get((f, q))
+            if node is None or isinstance(node, ast.ClassDef):
+                continue
+            for name, cands in sorted(referenced(node, f, q, nodes, by_name).items()):
+                for (cf, cq, kind) in cands:
+                    key = (cf, cq if kind != "const" else "=" + cq)
+                    if key in seen:
+                        continue
+                    seen.add(key)
+                    out.append((cf, cq, kind))
+                    if kind == "func":
+                        nxt.append((cf, cq))
+                    elif kind == "class":
+                        for init in ("__init__", "__attrs_post_init__"):
+                            if (cf, cq + "." + init) in nodes and (cf, cq + "." + init) not in seen:
+                                seen.add((cf, cq + "." + init)); out.append((cf, cq + "." + init, "func")); nxt.append((cf, cq + "." + init))
+        frontier = nxt
+    return out
+
+
 def main():
+    nodes, by_name, srcs = index_repo()
     gen_text = "\n".join(open(f).read() for f in glob.glob("/verif/coq/Gen/*.v"))
     props = [json.loads(l) for l in open("/verif/properties.jsonl")]
     table = {}
@@ -77,9 +215,25 @@ def main():
                 print("  not found at HEAD:", fpath, q, e)
                 continue
             entries.append({"file": fpath, "function": q, "mode": mode, "sha": h})
+        # helpers: what the pinned functions call or read (depth 3)
+        roots = [(e["file"], e["function"]) for e in entries]
+        nroot = len(entries)
+        for (cf, cq, kind) in helpers_of(roots, nodes, by_name):
+            if any(e["file"] == cf and e["function"] == cq for e in entries) or (cf, cq) in P.SKIP.get(p["id"], []):
+                continue
+            if kind == "func":
+                translated = cf.endswith("core/kernels.py") and re.search(r"\b" + re.escape(cq) + r"(_run|_body|_iter)?\b", gen_text) is not None
+                mode = "deco" if translated else "full"
+            else:
+                mode = kind
+            try:
+                h = P.digest_node("/repo", cf, cq, mode, src=srcs[cf])
+            except KeyError:
+                continue
+            entries.append({"file": cf, "function": cq, "mode": mode, "sha": h, "via": "helper"})
         table[p["id"]] = entries
-        print(p["id"], len(entries), "pinned:", ", ".join(f"{e['function']}[{e['mode'][0]}]" for e in entries))
-    json.dump({"base": subprocess.run(["git", "-C", "/repo", "rev-parse", "HEAD"], capture_output=True, text=True).stdout.strip(), "pins": table},
+        print(p["id"], f"{nroot} anchors + {len(entries) - nroot} helpers:", ", ".join(f"{e['function']}[{e['mode'][0]}]" for e in entries[nroot:])[:900])
+    json.dump({"python": list(sys.version_info[:2]), "base": subprocess.run(["git", "-C", "/repo", "rev-parse", "HEAD"], capture_output=True, text=True).stdout.strip(), "pins": table},
               open("/verif/pins.json", "w"), indent=1)
 
 
